@@ -10,6 +10,8 @@
 (* and the set `used` of operand index pairs whose product was placed.     *)
 (* Every event of the recorded call trace must be an ENABLED action:       *)
 (*   pp    g = AND(A[j], B[i])   places g at weight (j-1)+(i-1), once      *)
+(*         (squaring, A = B: each unordered pair once, one weight higher;  *)
+(*          the diagonal bits a_i are live from the start at 2(i-1))       *)
 (*   zero  g                     a constant-false gate                     *)
 (*   pop   ins -> outs           a bit counter: all ins live at ONE weight *)
 (*                               w; outs[k] becomes live at w + k - 1      *)
@@ -55,6 +57,11 @@ LStep(st, ev, at, A, B) ==
   ELSE CASE ev.e = "pp" ->
          LET j == LIndex(A, ev.x)  i == LIndex(B, ev.y) IN
          IF j = 0 \/ i = 0 THEN LFail(st, "partial-product-of-something-else-than-one-bit-of-each-operand", at)
+         ELSE IF A = B THEN      \* squaring: a_j a_i with j # i occurs twice in the square, i.e. once at one weight more
+           LET lo == IF j < i THEN j ELSE i   hi == IF j < i THEN i ELSE j IN
+           IF lo = hi THEN LFail(st, "diagonal-product-placed-as-a-gate", at)
+           ELSE IF <<lo, hi>> \in st.used THEN LFail(st, "partial-product-placed-twice", at)
+           ELSE [st EXCEPT !.live = Append(@, <<ev.g, (lo - 1) + (hi - 1) + 1>>), !.used = @ \cup {<<lo, hi>>}]
          ELSE IF <<j, i>> \in st.used THEN LFail(st, "partial-product-placed-twice", at)
          ELSE [st EXCEPT !.live = Append(@, <<ev.g, (j - 1) + (i - 1)>>), !.used = @ \cup {<<j, i>>}]
     [] ev.e = "zero" -> [st EXCEPT !.zeros = @ \cup {ev.g}]
@@ -95,13 +102,16 @@ LFinal(st, R, A, B, at) ==
   IF ~st.ok THEN st
   ELSE LET s2 == LConsumeAll(st, [k \in DOMAIN R |-> <<R[k], k - 1>>], at) IN
        IF ~s2.ok THEN LFail(st, "a-returned-bit-is-not-live-at-its-position", at)
-       ELSE IF Cardinality(s2.used) # Len(A) * Len(B) THEN LFail(s2, "not-every-partial-product-was-placed", at)
+       ELSE IF Cardinality(s2.used) # (IF A = B THEN (Len(A) * (Len(A) - 1)) \div 2 ELSE Len(A) * Len(B))
+            THEN LFail(s2, "not-every-partial-product-was-placed", at)
        ELSE IF \E i \in DOMAIN s2.live : s2.live[i][2] < Len(R) /\ s2.live[i][1] \notin s2.zeros
             THEN LFail(s2, "a-live-bit-inside-the-result-width-was-dropped", at)
        ELSE s2
 
 LedgerRun(t) ==     \* t = [A, B, ev, R]
   LET n == Len(t.ev)
-      run == FoldLeft(LAMBDA acc, k : LStep(acc, t.ev[k], k, t.A, t.B), LInit, [k \in 1 .. n |-> k])
+      \* squaring (A = B): the diagonal products a_i a_i = a_i are live from the start, at weight 2 (i - 1)
+      init == IF t.A = t.B THEN [LInit EXCEPT !.live = [i \in DOMAIN t.A |-> <<t.A[i], 2 * (i - 1)>>]] ELSE LInit
+      run == FoldLeft(LAMBDA acc, k : LStep(acc, t.ev[k], k, t.A, t.B), init, [k \in 1 .. n |-> k])
   IN LFinal(run, t.R, t.A, t.B, n + 1)
 =============================================================================
